@@ -456,3 +456,215 @@ func init() {
 	register("C02", Rule{"R02f", ruleDerivedCountDistinctSlots})
 	register("C01", Rule{"R02f", ruleDerivedCountDistinctSlots})
 }
+
+// R02g: a set that may have shrunk to nothing is tested before it is wrapped.  The empty set has one representation
+// (None): Equal, Hash, UnionSet bucket removal and the enumerators rely on it.  Where and Without are the methods
+// that can empty a representation; every value they return is the receiver itself, None, the result of a call that
+// normalises (a function of package rel that can return None, or another Set's method), or a representation struct
+// built on a path that is control-dependent on an emptiness test (IsEmpty / Count / IsTrue / len / a count field).
+func ruleShrunkSetsNormalised(p *Program, r *Report) {
+	r.Begin("R02g", "one empty set: in every Where and Without method of a set representation, a returned value that is a representation struct built in the method (not the receiver, not None, not the result of a normalising call) is returned only on a path that is control-dependent on an emptiness test of what was built — otherwise a set filtered down to nothing comes back as an empty Dict/Relation/Array that is not equal to {}", 10)
+	defer r.End()
+	setT := p.NamedType("rel", "Set")
+	relPkg := p.Pkg("rel")
+	if setT == nil || relPkg == nil {
+		r.Undecided("anchor", "rel.Set not found", 0)
+		return
+	}
+	setI := setT.Underlying().(*types.Interface)
+	var noneG *ssa.Global
+	if g, ok := relPkg.Members["None"].(*ssa.Global); ok {
+		noneG = g
+	}
+	// normalisers: functions of package rel with a return of None
+	returnsNone := map[*ssa.Function]bool{}
+	for _, fn := range p.RepoFns {
+		if fn.Pkg != relPkg {
+			continue
+		}
+		ForEachInstr(fn, func(ins ssa.Instruction) {
+			if ret, ok := ins.(*ssa.Return); ok {
+				for i := range ret.Results {
+					if DependsOn(RetVal(ret, i), func(x ssa.Value) bool {
+						ld, ok := x.(*ssa.UnOp)
+						return ok && noneG != nil && ld.X == ssa.Value(noneG)
+					}) {
+						returnsNone[fn] = true
+					}
+				}
+			}
+		})
+	}
+	isEmptinessTest := func(cond ssa.Value) bool {
+		return DependsOn(cond, func(x ssa.Value) bool {
+			switch y := x.(type) {
+			case *ssa.Call:
+				if b, ok := y.Call.Value.(*ssa.Builtin); ok && b.Name() == "len" {
+					return true
+				}
+				name := ""
+				if y.Call.IsInvoke() {
+					name = y.Call.Method.Name()
+				} else if g := y.Call.StaticCallee(); g != nil {
+					name = baseName(g)
+				}
+				return name == "IsEmpty" || name == "Count" || name == "IsTrue"
+			case *ssa.Field:
+				if st := structOf(y.X.Type()); st != nil {
+					return st.Field(y.Field).Name() == "count"
+				}
+			case *ssa.FieldAddr:
+				if st := structOf(y.X.Type()); st != nil {
+					return st.Field(y.Field).Name() == "count"
+				}
+			}
+			return false
+		})
+	}
+	for _, T := range p.ValueTypes() {
+		if !types.Implements(T, setI) {
+			continue
+		}
+		for _, mname := range []string{"Where", "Without"} {
+			m := p.MethodOf(T, mname)
+			if m == nil || m.Blocks == nil || !InRepo(m) {
+				continue
+			}
+			r.Fn(FnName(m))
+			pd := NewPostDom(m)
+			ord := 0
+			ForEachInstr(m, func(ins ssa.Instruction) {
+				ret, ok := ins.(*ssa.Return)
+				if !ok || len(ret.Results) == 0 || ret.Block() == m.Recover {
+					return
+				}
+				last := len(ret.Results) - 1
+				if isErrorType(ret.Results[last].Type()) && !IsNilConst(RetVal(ret, last)) {
+					return
+				}
+				v := RetVal(ret, 0)
+				ord++
+				key := fmt.Sprintf("returns@%s~%d", FnName(m), ord)
+				var judge func(v ssa.Value, depth int) (bool, string)
+				judge = func(v ssa.Value, depth int) (bool, string) {
+					if depth > 4 {
+						return true, "deep"
+					}
+					switch x := v.(type) {
+					case *ssa.Const:
+						return true, "nil"
+					case *ssa.Parameter:
+						return true, "the receiver/argument unchanged"
+					case *ssa.UnOp:
+						if noneG != nil && x.X == ssa.Value(noneG) {
+							return true, "None"
+						}
+						if al, ok := x.X.(*ssa.Alloc); ok {
+							if _, isP := paramCell(al); isP {
+								return true, "the receiver unchanged"
+							}
+						}
+					case *ssa.Phi:
+						for _, e := range x.Edges {
+							if ok, why := judge(e, depth+1); !ok {
+								return false, why
+							}
+						}
+						return true, "all alternatives"
+					case *ssa.MakeInterface:
+						if _, isP := x.X.(*ssa.Parameter); isP {
+							return true, "the receiver unchanged"
+						}
+						if ld, isLd := x.X.(*ssa.UnOp); isLd {
+							if al, isAl := ld.X.(*ssa.Alloc); isAl {
+								if _, isP := paramCell(al); isP {
+									// the receiver spilled to a cell: unchanged unless a field of the cell was stored to
+									written := false
+									for _, ref := range *al.Referrers() {
+										if fa, ok := ref.(*ssa.FieldAddr); ok && fa.Referrers() != nil {
+											for _, r2 := range *fa.Referrers() {
+												if st, ok := r2.(*ssa.Store); ok && st.Addr == ssa.Value(fa) {
+													written = true
+												}
+											}
+										}
+									}
+									if !written {
+										return true, "the receiver unchanged"
+									}
+								}
+							}
+						}
+						if c, isCall := x.X.(*ssa.Call); isCall {
+							return judge(c, depth+1)
+						}
+						// a representation struct built here: what went into it
+						var built []ssa.Value
+						if ld, isLd := x.X.(*ssa.UnOp); isLd {
+							if al, isAl := ld.X.(*ssa.Alloc); isAl && al.Referrers() != nil {
+								built = append(built, al)
+								for _, ref := range *al.Referrers() {
+									if fa, ok := ref.(*ssa.FieldAddr); ok && fa.Referrers() != nil {
+										for _, r2 := range *fa.Referrers() {
+											if st, ok := r2.(*ssa.Store); ok && st.Addr == ssa.Value(fa) {
+												built = append(built, st.Val)
+											}
+										}
+									}
+								}
+							}
+						}
+						aboutBuilt := func(cond ssa.Value) bool {
+							if len(built) == 0 {
+								return true
+							}
+							return DependsOn(cond, func(y ssa.Value) bool {
+								for _, b := range built {
+									if y == b {
+										return true
+									}
+								}
+								return false
+							})
+						}
+						for _, cd := range pd.TransitiveControlDeps(ret.Block()) {
+							if cond := IfCond(cd.Br); cond != nil && isEmptinessTest(cond) && aboutBuilt(cond) {
+								return true, "built under an emptiness test"
+							}
+						}
+						// a struct that is the receiver with fields updated in place (Array.Without's clone) still needs the test
+						return false, "a " + TypeName(x.X.Type()) + " built here"
+					case *ssa.Extract:
+						return judge(x.Tuple, depth+1)
+					case *ssa.Call:
+						if x.Call.IsInvoke() {
+							return true, "another set's method"
+						}
+						g := x.Call.StaticCallee()
+						if g == nil || !InRepo(g) {
+							return true, "external"
+						}
+						if returnsNone[g] || g.Name() == mname || g.Name() == "Where" || g.Name() == "Without" {
+							return true, "normalising call " + g.Name()
+						}
+						// a constructor that never yields None: the caller must have tested
+						for _, cd := range pd.TransitiveControlDeps(ret.Block()) {
+							if cond := IfCond(cd.Br); cond != nil && isEmptinessTest(cond) {
+								return true, "constructed under an emptiness test"
+							}
+						}
+						return false, "the result of " + g.Name() + ", which never returns None"
+					}
+					return true, "other"
+				}
+				ok2, why := judge(v, 0)
+				r.Check(ok2, key, why, fmt.Sprintf("%s returns %s without testing whether anything is left: when the last member is removed / nothing matches, the result is an empty %s instead of None — it prints as {} but is not equal to {}, does not collapse with it in sets, and leaves an empty bucket behind in a union", FnName(m), why, shortT(T)), ret.Pos())
+			})
+		}
+	}
+}
+
+func init() {
+	register("C02", Rule{"R02g", ruleShrunkSetsNormalised})
+	register("C01", Rule{"R02g", ruleShrunkSetsNormalised})
+}
